@@ -164,9 +164,12 @@ fn c03_profiles() -> Vec<crate::gen::Profile> {
         names_profile(),
         mixed_profile(),
     ];
-    for p in v.iter_mut() {
+    for (k, p) in v.iter_mut().enumerate() {
         p.names = true;
         p.customs = true;
+        p.tags = p.tags || k % 2 == 0;
+        // struct / array types in the type section: an index meant for a function type can land on them
+        p.gc_types = p.gc_types || k % 2 == 1;
     }
     v
 }
@@ -211,6 +214,7 @@ pub struct Input {
 pub fn gen_input(seed: u64, index: u64, fx: &Fixtures) -> Input {
     let mut rng = Rng::new(mix(mix(seed, 0xC03), index));
     let profiles = c03_profiles();
+    let writer_bugs: std::cell::RefCell<Vec<&'static str>> = std::cell::RefCell::new(vec![]);
     let mut gen_module = |rng: &mut Rng| -> Vec<u8> {
         let p = &profiles[rng.below(profiles.len())];
         let mut st = GenState::new();
@@ -222,6 +226,86 @@ pub fn gen_input(seed: u64, index: u64, fx: &Fixtures) -> Input {
                 mutable: false,
                 init: ConstE::ExtAdd(rng.below(100) as i32, 5),
             });
+        }
+        if rng.chance(1, 5) {
+            // a well-formed artefact written by a buggy writer: one index points at the wrong kind of
+            // entity or out of range (the byte-level faults rarely produce these)
+            let nt = m.flat_types().len() as u32;
+            let wild = |rng: &mut Rng, n: u32| -> u32 {
+                match rng.below(4) {
+                    0 => n,
+                    1 => n + 1 + rng.below(5) as u32,
+                    2 => u32::MAX,
+                    _ => rng.below(n.max(1) as usize) as u32,
+                }
+            };
+            let nf = m.funcs.len();
+            let ni = m.imports.len();
+            let label = match rng.below(12) {
+                0 | 1 if nf > 0 => {
+                    let k = rng.below(nf);
+                    m.funcs[k].ty = wild(rng, nt);
+                    "writer_bug:func_type_index"
+                }
+                2 if ni > 0 => {
+                    let k = rng.below(ni);
+                    match &mut m.imports[k].kind {
+                        ImpKind::Func(t) | ImpKind::Tag(t) => *t = wild(rng, nt),
+                        _ => {}
+                    }
+                    "writer_bug:import_type_index"
+                }
+                3 if !m.exports.is_empty() => {
+                    let k = rng.below(m.exports.len());
+                    m.exports[k].index = wild(rng, 8);
+                    if rng.chance(1, 2) {
+                        m.exports[k].kind = *rng.pick(&[ExtKind::Func, ExtKind::Table, ExtKind::Memory, ExtKind::Global, ExtKind::Tag]);
+                    }
+                    "writer_bug:export_index"
+                }
+                4 => {
+                    m.start = Some(wild(rng, 8));
+                    "writer_bug:start_index"
+                }
+                5 if !m.elems.is_empty() => {
+                    let k = rng.below(m.elems.len());
+                    let w = wild(rng, 8);
+                    match &mut m.elems[k].items {
+                        ElemItems::Funcs(v) => v.push(w),
+                        ElemItems::Exprs(v) => v.push(ConstE::RefFunc(w)),
+                    }
+                    "writer_bug:elem_func_index"
+                }
+                6 if !m.globals.is_empty() => {
+                    let k = rng.below(m.globals.len());
+                    m.globals[k].init = if rng.chance(1, 2) { ConstE::GlobalGet(wild(rng, 8)) } else { ConstE::RefFunc(wild(rng, 8)) };
+                    "writer_bug:global_init_index"
+                }
+                7 if !m.data.is_empty() => {
+                    let k = rng.below(m.data.len());
+                    m.data[k].mode = DataMode::Active { mem: wild(rng, 3), offset: if rng.chance(1, 2) { ConstE::I32(0) } else { ConstE::GlobalGet(wild(rng, 8)) } };
+                    "writer_bug:data_memory_index"
+                }
+                8 if !m.tags.is_empty() => {
+                    let k = rng.below(m.tags.len());
+                    m.tags[k] = wild(rng, nt);
+                    "writer_bug:tag_type_index"
+                }
+                9 if nf > 0 => {
+                    // declared locals whose count overflows u32 when summed
+                    let k = rng.below(nf);
+                    m.funcs[k].locals.push((u32::MAX, crate::ins::VT::I32));
+                    m.funcs[k].locals.push((u32::MAX - rng.below(3) as u32, crate::ins::VT::I64));
+                    "writer_bug:locals_count_overflow"
+                }
+                10 if nf > 0 => {
+                    // a name for a local / function that does not exist
+                    m.names.funcs.push((wild(rng, 8), "ghost".into()));
+                    "writer_bug:name_index"
+                }
+                _ => "writer_bug:none_applicable",
+            };
+            writer_bugs.borrow_mut().push(label);
         }
         m.to_bytes()
     };
@@ -235,7 +319,7 @@ pub fn gen_input(seed: u64, index: u64, fx: &Fixtures) -> Input {
         8 if !fx.components.is_empty() => (rng.pick(&fx.components).clone(), "fixture_component"),
         _ => (gen_module(&mut rng), "generated_module"),
     };
-    let mut faults = vec![];
+    let mut faults: Vec<&'static str> = writer_bugs.borrow().iter().copied().filter(|l| *l != "writer_bug:none_applicable").collect();
     let mut all_prefixes = false;
     let r = rng.below(100);
     if r < 6 {
